@@ -120,6 +120,7 @@ func (r *Runner) exec(a Action) {
 	case "heal":
 		w.Mu.Lock()
 		r.cut = map[[2]string]bool{}
+		r.healEpoch.Add(1)
 		w.EvLocked(sim.Event{Kind: "heal"})
 		r.lastFaultMs = w.Now()
 		w.Mu.Unlock()
